@@ -89,6 +89,8 @@ def gen_plan(rng, index, tier):
             st["stationaryBlockFlags"] = ["GRID_PLATE"]
     if rng.random() < 0.2:
         st["syncAfterWrite"] = False
+    if rng.random() < 0.5:
+        st["forceDbParams"] = ["percentBuByPin"]  # a parameter made persistent by the user
     actors = []
     for k in range(rng.choice([1, 2, 3])):
         actors.append({"name": f"sim{k}", "order": rng.choice([1.5, 2.5, 4.5, 6.5, 10.5]), "function": f"simf{k}", "kwargs": {"enabled": True, "bolForce": False, "reverseAtEOL": False}})
@@ -125,7 +127,7 @@ def gen_plan(rng, index, tier):
         elif op == "rotate":
             kw["k"] = rng.choice([1, 2, 3, 5])
         elif op == "std":
-            kw["which"] = rng.choice(["power", "flux", "mgFlux", "keff", "notes", "buLimit", "pdens", "detailedNDens"])
+            kw["which"] = rng.choice(["power", "flux", "mgFlux", "keff", "notes", "buLimit", "pdens", "detailedNDens", "percentBuByPin"])
         steps.append(c06._mk_step(0, a["name"], pt, op, **kw))
     if cfg.get("fuelHandler"):
         st["trackAssems"] = rng.random() < 0.6
@@ -312,6 +314,11 @@ def op_std(d, st, actor):
         b.p.buLimit = 10.0 + u
     elif w == "pdens":
         b.p.pdens = 0.5 * u
+    elif w == "percentBuByPin":
+        # one entry per pin (the largest multiplicity in the block), persistent through forceDbParams
+        for j, bb in enumerate(blks):
+            mult = max([int(c.getDimension("mult")) for c in bb if c.getDimension("mult")] or [1])
+            bb.p.percentBuByPin = [round(0.01 * u + 0.001 * j + 1e-4 * i, 6) for i in range(mult)]
     elif w == "detailedNDens":
         for j, bb in enumerate(blks):
             bb.p.detailedNDens = np.array([1e-3 * u, 1e-4 * j])
